@@ -25,9 +25,33 @@ pub fn ns_id(i: u8) -> NamespaceId {
     IDS.get_or_init(|| (0..16u8).map(|i| ns_secret(i).id()).collect())[i as usize]
 }
 pub fn author(i: u8) -> Author {
+    if i == EDGE_AUTHOR {
+        return edge_author();
+    }
     let mut seed = [0x22u8; 32];
     seed[0] = 0xB0 + i;
     Author::from_bytes(&seed)
+}
+
+/// Index of an author whose id ends in the byte 0xFF and whose second-to-last byte is not 0xFF
+/// (found by a deterministic search over seeds): the exclusive end of its key space in the
+/// (namespace, author, key) order needs a carry into the second-to-last byte of the author id.
+pub const EDGE_AUTHOR: u8 = 15;
+
+fn edge_author() -> Author {
+    static SEED: std::sync::OnceLock<[u8; 32]> = std::sync::OnceLock::new();
+    let seed = SEED.get_or_init(|| {
+        for n in 0u32.. {
+            let mut seed = [0x23u8; 32];
+            seed[..4].copy_from_slice(&n.to_le_bytes());
+            let id = Author::from_bytes(&seed).id().to_bytes();
+            if id[31] == 0xff && id[30] != 0xff && id[30] != 0x00 {
+                return seed;
+            }
+        }
+        unreachable!()
+    });
+    Author::from_bytes(seed)
 }
 pub fn author_id(i: u8) -> AuthorId {
     static IDS: std::sync::OnceLock<Vec<AuthorId>> = std::sync::OnceLock::new();
